@@ -3,4 +3,5 @@ CONSTANTS Depth = 2
  Cap = 3
 INVARIANT PropInv
 INVARIANT NeverLost
+INVARIANT SamePathTwice
 CHECK_DEADLOCK FALSE
